@@ -39,7 +39,7 @@ def reference_distribution(U, n, full_in):
     dist, trunc, nlo = {}, {}, {}
     allp = []
     for fo in fg.fock_states(dim, tot):
-        p = abs(fg.amplitude_ref(U, full_in, fo)) ** 2
+        p = float(abs(fg.amplitude_ref(U, full_in, fo)) ** 2)
         allp.append(p)
         key = tuple(fo[:n])
         dist[key] = dist.get(key, 0.0) + p
@@ -92,7 +92,7 @@ class C04:
         self._cache = {}
 
     def generate(self, rng, tier):
-        n = 300 if tier == "quick" else 6000
+        n = 300 if tier == "quick" else 15000
         cases = []
         for i in range(n):
             if i % 10 == 7:
